@@ -3,6 +3,8 @@
    form.nodal x || <analysis> || line || line …          nodal equations of the model
    form.mesh  <e0|e1> || <analysis> || line … || loops || n n n || n n n …   mesh equations
    form.cycles || <analysis> || line … || loops || …                   isSimpleCycle per loop
+   form.basis  || <analysis> || line … || loops || …                   do the loops span the cycle space of the circuit graph
+                                                                       (certificate found here, judged by `checkBasis`)
    form.eval || c c c … || const || x x x …                            Σ cᵢ·xᵢ + const  (spec: equation holds iff 0)
    ss.form <ccf|ocf> || b … || a …                                     realisation of the model
    ss.dcf || b … || a … || poles … || residues …
@@ -16,6 +18,7 @@ import Lcapy.Model.Netlist
 import Lcapy.Model.Formulations
 import Lcapy.Model.Realisations
 import Lcapy.Model.StateSpaceMaker
+import Lcapy.Model.MeshComplete
 import Lcapy.Driver.C01
 namespace Lcapy.Driver.C15
 open Lcapy Lcapy.MNA Lcapy.Netlist Lcapy.Formulations Lcapy.StateSpace
@@ -80,6 +83,69 @@ def ssStr (sys : SS GQ) : String :=
 
 def ssOfLists (n : Nat) (A B C : List GQ) (D : GQ) : SS GQ :=
   { n := n, A := fun i j => A.getD (i * n + j) 0, B := fun i => B.getD i 0, C := fun j => C.getD j 0, D := D }
+
+/-! ### cycle-basis certificate (untrusted search; `Formulations.checkBasis` is the judge) -/
+
+/-- reduced row echelon form of a rectangular augmented system; returns (solution with free variables 0, rank) -/
+def solveRect (rows : List (List GQ)) (ncols : Nat) : List GQ × Nat := Id.run do
+  let mut rows := rows
+  let mut pivots : List (Nat × Nat) := []
+  let mut r := 0
+  for col in List.range ncols do
+    match (List.range rows.length).find? (fun i => i ≥ r && !((rows.getD i []).getD col 0).isZero) with
+    | none => pure ()
+    | some p =>
+      rows := swapRows rows r p
+      let prow := rows.getD r []
+      let pv := prow.getD col 0
+      let prow := prow.map (fun v => v / pv)
+      rows := rows.set r prow
+      let rr := r
+      rows := rows.mapIdx (fun i row =>
+        if i = rr then row
+        else
+          let f := row.getD col 0
+          if f.isZero then row else (row.zip prow).map (fun (a, b) => a - f * b))
+      pivots := pivots ++ [(col, r)]
+      r := r + 1
+  let sol := (List.range ncols).map (fun col =>
+    match pivots.find? (fun pr => pr.1 = col) with
+    | some (_, ri) => (rows.getD ri []).getD ncols 0
+    | none => 0)
+  return (sol, r)
+
+def dedupG (l : List GNode) : List GNode := l.foldl (fun acc i => if acc.contains i then acc else acc ++ [i]) []
+
+/-- walks from a root of every connected component of the graph to each of its nodes (ground first) -/
+def findPaths (g : List (Edge GQ)) : List (GNode × List GNode) := Id.run do
+  let nodes := dedupG ([GNode.real 0] ++ g.flatMap (fun e => [e.a, e.b]))
+  let mut paths : List (GNode × List GNode) := []
+  for root in nodes do
+    if !(paths.any (fun p => p.1 == root)) then
+      paths := paths ++ [(root, [root])]
+      for _ in List.range nodes.length do
+        for e in g do
+          match paths.find? (fun p => p.1 == e.a), paths.find? (fun p => p.1 == e.b) with
+          | some pa, none => paths := paths ++ [(e.b, pa.2 ++ [e.b])]
+          | none, some pb => paths := paths ++ [(e.a, pb.2 ++ [e.a])]
+          | _, _ => pure ()
+  return paths
+
+def findCert (cs : List (Cpt GQ)) (loops : List (List GNode)) : BasisCert GQ × Nat :=
+  let g := buildGraph cs
+  let N := cs.length
+  let paths := findPaths g
+  let pathOf (v : GNode) : List GNode := match paths.find? (fun p => p.1 == v) with | some p => p.2 | none => []
+  let L : List (List GQ) := loops.map (fun l => (List.range N).map (fun idx => inc g (loopPairs l) idx))
+  let rank := (solveRect (L.map (fun row => row ++ [0])) N).2
+  let coefs := g.map (fun e =>
+    let tgt := (List.range N).map (fun idx =>
+      inc g (openPairs (pathOf e.a)) idx + edgeUnit e idx - inc g (openPairs (pathOf e.b)) idx)
+    if tgt.all GQ.isZero then loops.map (fun _ => (0 : GQ))
+    else
+      let rows := (List.range N).map (fun idx => L.map (fun row => row.getD idx 0) ++ [tgt.getD idx 0])
+      (solveRect rows loops.length).1)
+  (⟨paths, coefs⟩, rank)
 
 /-! ### StateSpaceMaker -/
 
@@ -174,6 +240,10 @@ def handleForm (cmd : String) (variant : List String) (secs : List (List String)
           | some loops =>
             if cmd = "form.cycles" then
               " ".intercalate (loops.map (fun l => toString (isSimpleCycle g l)))
+            else if cmd = "form.basis" then
+              let (cert, rank) := findCert cs loops
+              let nul := g.length + 1 - (dedupG ([GNode.real 0] ++ g.flatMap (fun e => [e.a, e.b]))).length
+              s!"{checkBasis cs loops cert} loops={loops.length} rank={rank} edges-nodes+1={nul}"
             else
               " || ".intercalate (loops.map (fun l =>
                 match meshEq pe an.kind sF g loops l with
